@@ -14,7 +14,8 @@
    Source transcoding: CORRESPONDED ONLY (Expat's work). *)
 From Coq Require Import List NArith.
 From Wbxml Require Import Model.Codec Model.TablesDefs Model.EncWbxml Proofs.EncWbxmlProofs Proofs.EncWbxmlC07 Proofs.EncWbxmlAbs Proofs.EncWbxmlDenote2
-     Model.EncWbxmlEvents Proofs.EncWbxmlTblOk Proofs.EncWbxmlDenote3 Proofs.EncWbxmlAbs4 Proofs.EncWbxmlDenote4 Proofs.EncWbxmlAbs5 Proofs.EncWbxmlDenote5 Proofs.EncWbxmlDenoteWv.
+     Model.EncWbxmlEvents Proofs.EncWbxmlTblOk Proofs.EncWbxmlDenote3 Proofs.EncWbxmlAbs4 Proofs.EncWbxmlDenote4 Proofs.EncWbxmlAbs5 Proofs.EncWbxmlDenote5 Proofs.EncWbxmlDenoteWv
+     Proofs.EncWbxmlDenote6 Proofs.EncWbxmlClass6 Proofs.EncWbxmlClasses Proofs.EncWbxmlUnion.
 From Wbxml Require Model.Parser Model.Spec.
 From Wbxml Require Model.EncXml Model.XmlRead Proofs.EncXmlProofs Proofs.EncXmlIndent Proofs.EncXmlC07.
 Import ListNotations.
@@ -169,6 +170,26 @@ Theorem C07_wbxml_options_decode_equal_typed_wv_partial : forall tblb TBL L v1 v
                   merge_chars ev1 = merge_chars ev2.
 Proof. exact options_decode_equal_wv. Qed.
 Print Assumptions C07_wbxml_options_decode_equal_typed_wv_partial.
+
+(* THE UNION (round 7): every language (class selected by the language: Wireless Village, DRMREL, SyncML, OTA settings, all
+   others incl. SI / EMN), every node kind of C06's union fragment except embedded trees (an embedded document carries its
+   own version byte and string table, so the octets reported for it differ between tuples; they decode to the same events:
+   C06_embedded_document_decodes_to_embedded_tree): all 16 tuples {version} x {string table} x {anonymous} decode to event
+   lists equal modulo merge_chars. *)
+Theorem C07_wbxml_options_decode_equal : forall tblb TBL L v1 v2 s1 s2 a1 a2 k tag attrs ch bs1 bs2,
+  let o1 := mk_opts v1 s1 k a1 in let o2 := mk_opts v2 s2 k a2 in
+  vals_ok L = true -> side_u L = true -> tag_tbl_ok (enc_env (to_blang L) o1) = true ->
+  tree_ok6 L (aok_u L) (tok_u L k) (cok_plain L) eok_none (is_syncml (to_blang L)) 0 true None (NElt tag attrs ch) = true ->
+  find (fun x => l_id x =? l_id L) TBL = Some L ->
+  v1 < 4 -> v2 < 4 -> l_pub_num L < 4294967296 -> l_pub_num L <> 0 ->
+  (match l_pub_text L with Some p => okb (Parser.B p) = true | None => True end) ->
+  len bs1 < 4294967296 -> len bs2 < 4294967296 ->
+  enc_wbxml tblb (to_blang L) o1 [NElt tag attrs ch] = EOk bs1 ->
+  enc_wbxml tblb (to_blang L) o2 [NElt tag attrs ch] = EOk bs2 ->
+  exists ev1 ev2, Spec.decode_lang TBL (l_id L) bs1 = Some ev1 /\ Spec.decode_lang TBL (l_id L) bs2 = Some ev2 /\
+                  merge_chars ev1 = merge_chars ev2.
+Proof. exact options_decode_equal_union. Qed.
+Print Assumptions C07_wbxml_options_decode_equal.
 
 (* ---- XML half (statements over the XML generator model; qualified names: its tree type is its own) -------------- *)
 Module XmlHalf.
